@@ -110,8 +110,12 @@ def xround : X α → X α
 /-- `a == b` with NaNs equal (`np.isclose(a, b, rtol=0, atol=0, equal_nan=True)`) -/
 def xeqNan (a b : X α) : Bool := X.eq a b || (a.isnan && b.isnan)
 
+/-- `np.sin`, exact at 0 (where it decides `x ** sin(0) = 1`) -/
+def xsin (F : Fn α) : X α → X α
+  | .fin a => if a = 0 then .fin 0 else .fin (F.sin a)
+  | _ => .nan
 def xtan (F : Fn α) : X α → X α
-  | .fin a => X.div (.fin (F.sin a)) (.fin (F.cos a))
+  | .fin a => if a = 0 then .fin 0 else X.div (.fin (F.sin a)) (.fin (F.cos a))
   | _ => .nan
 def xcosh (F : Fn α) : X α → X α
   | .fin a => .fin ((F.exp a + F.exp (-a)) / 2)
@@ -150,7 +154,7 @@ def sem1 (F : Fn α) (f : Elem) (v : Val α) : Val α :=
   | "log1p" => num1 (xlog1p F) v
   | "sqrt" => num1 (X.sqrt F) v
   | "cos" => num1 (X.cos F) v
-  | "sin" => num1 (X.sin F) v
+  | "sin" => num1 (xsin F) v
   | "tan" => num1 (xtan F) v
   | "cosh" => num1 (xcosh F) v
   | "sinh" => num1 (xsinh F) v
